@@ -37,6 +37,18 @@ Definition subElim_at (a b : option Z) : option Z :=
 (* SubErrorNegative reports an error iff some subtracted type went below zero *)
 Definition subNeg_at (a b : option Z) : bool :=
   match b with None => false | Some y => clamp (oz a - y) <? 0 end.
+(* SubEliminateNegative / SubErrorNegative AS DOCUMENTED ("all negative values are reset to 0", "an error
+   if any value in the result is negative"): every type of the result is max 0 of the difference.
+   The code resets only the types of the right operand (subElim_at / subNeg_at above): a type that
+   only the left operand has keeps a negative value and raises no error. That window is the recorded
+   known finding C18-subelim-left-negative. *)
+Definition subElimDoc_at (a b : option Z) : option Z :=
+  match sub_at a b with Some v => Some (Z.max 0 v) | None => None end.
+Definition subNegDoc_at (a b : option Z) : bool :=
+  match sub_at a b with Some v => v <? 0 | None => false end.
+Definition left_only_negative_at (a b : option Z) : bool :=
+  match a, b with Some v, None => v <? 0 | _, _ => false end.
+
 Definition cwmin_at (a b : option Z) : option Z :=
   match a, b with
   | Some x, Some y => Some (Z.min x y)
@@ -108,6 +120,8 @@ Definition all_keys (P : option Z -> option Z -> bool) (x y : res) : bool :=
   forallb (fun k => P (get x k) (get y k)) (keys x ++ keys y).
 Definition some_key (P : option Z -> option Z -> bool) (x y : res) : bool :=
   existsb (fun k => P (get x k) (get y k)) (keys x ++ keys y).
+
+Definition subElim_known_window (l r : res) : bool := some_key left_only_negative_at l r.
 
 (* result vector [out] agrees with [f] at every key *)
 Definition pw_ok (f : option Z -> option Z -> option Z) (x y out : res) : bool :=
